@@ -149,6 +149,18 @@ def run(ctx):
     ins = [bi for bi, t, c in rj.calls() if c in HASH_INSERT and bi in rj.reachable()
            and 'adjust_instance_id_and_crash_counters' in __import__('hqrules.templates', fromlist=['x']).local_field_sources(rj, op_local(t['args'][0]))]
     ctx.ob('R06.5', 'restore_job|adjust insert', bool(ins), 'restore_job fills adjust_instance_id_and_crash_counters', rj.loc(ins[0]) if ins else rj.loc())
+    if ins:
+        gt = [(bi, s_) for bi, s_, op, a, c in binops(rj) if op in ('Gt', 'Ne') and 'crash_counter' in (operand_fields(rj, a) | operand_fields(rj, c))]
+        from hqrules.templates import bool_uses, guard_edges, dominated_by_edges
+        dom_cc = False
+        for bi, s_ in gt:
+            te = set((sb, ts) for sb, ts, fs in bool_uses(rj, s_['p'][0]))
+            if te and dominated_by_edges(rj, ins[0], te):
+                dom_cc = True
+        e_some, calls = guard_edges(rj, 'core::option::Option::is_some', True)
+        reach_some = any(ins[0] in rj.reach_from([tgt]) for sb, tgt in e_some)
+        ctx.ob('R06.5', 'restore_job|adjust whenever an instance was seen', (not dom_cc) and reach_some,
+               'the adjust entry is written whenever the task has a recorded instance id (not only when it crashed): a started-but-not-crashed task must be re-run with last+1, not with instance 0', rj.loc(ins[0]))
     # (b) the adjust map is consumed by a function that writes Task.instance_id
     readers = set(o for o, b, bi, st in __import__('hqrules.templates', fromlist=['x']).field_read_sites(prog, 'tako::gateway::TaskSubmit', 'adjust_instance_id_and_crash_counters') if not is_test_util(o))
     wr = set(o for o, b, bi, st, k in field_write_sites(prog, TASK, 'instance_id') if not is_test_util(o))
